@@ -74,6 +74,11 @@ fn medium_case(rng: &mut Rng) -> ContCase {
     items.push(Item { len: 3_000_000, ent: Ent::Low4, hint: Hint::Yes, src: Src::Mem, dup_of: None, cat_of: None });
     items.push(Item { len: 2_000_000, ent: Ent::Low4, hint: Hint::Yes, src: Src::Mem, dup_of: None, cat_of: None });
     items.push(Item { len: 70_000, ent: Ent::High, hint: Hint::No, src: Src::Mem, dup_of: None, cat_of: None });
+    // one compressed cluster holding several contents and spanning many compressed blocks (6-bit data: about 3/4 of its size
+    // once compressed): damage in the middle of it makes decoding fail after a prefix has been decoded and published
+    for _ in 0..6 {
+        items.push(Item { len: 300_000, ent: Ent::Mid6, hint: Hint::Yes, src: Src::Mem, dup_of: None, cat_of: None });
+    }
     let n = items.len();
     let content = ContentCase { seed: rng.next(), comp: Comp::Zstd(1), cached: false, items };
     let files = StoreDef {
